@@ -99,11 +99,11 @@ func clusterRun(ctx *vc.Ctx, faults bool) {
 	case !faults && !ctx.Thorough():
 		cfgs = []cfg{{3, 2, 6, true}, {2, 3, 10, false}, {3, 2, 5, false}}
 	case !faults:
-		cfgs = []cfg{{2, 4, 14, false}, {3, 3, 8, false}, {3, 3, 8, true}}
+		cfgs = []cfg{{3, 3, 7, true}, {2, 4, 12, false}, {3, 3, 7, false}}
 	case !ctx.Thorough():
 		cfgs = []cfg{{3, 2, 6, true}, {2, 3, 8, false}, {3, 3, 4, false}}
 	default:
-		cfgs = []cfg{{2, 4, 12, false}, {3, 3, 7, false}, {3, 3, 9, true}}
+		cfgs = []cfg{{3, 3, 7, true}, {2, 4, 10, false}, {3, 3, 6, false}}
 	}
 	for _, c := range cfgs {
 		f := 0
